@@ -62,6 +62,14 @@ def gen_history(rng, nops, big_ok=True):
     setup = [('ai', i) for i in port_ids] + [('ao', i) for i in out_ids] + [('ak', i) for i in sink_ids]
     rng.shuffle(setup)
     ops += ['%s,%d' % s for s in setup]
+    # dependants whose WriteDMX / SendDMX report failure (the universe must still serve everybody)
+    if rng.random() < 0.4:
+        for i in out_ids:
+            if rng.random() < 0.5:
+                ops.append('wr,%d,0' % i)
+        for c in sink_ids:
+            if rng.random() < 0.4:
+                ops.append('sr,%d,0' % c)
     if rng.random() < 0.5:
         ops.append('mode,%d' % rng.choice([0, 1]))
     # a small palette so that equal priorities (groups of 2 and more) are common
@@ -138,8 +146,14 @@ def gen_history(rng, nops, big_ok=True):
             ops.append('%s,%d' % (rng.choice(['as', 'rs']), anyclient()))
         elif r < 0.87:
             ops.append('%s,%d' % (rng.choice(['ao', 'ro', 'ao']), rng.randrange(8)))
-        elif r < 0.91:
+        elif r < 0.90:
             ops.append('%s,%d' % (rng.choice(['ak', 'rk', 'ak']), rng.randrange(8)))
+        elif r < 0.925:
+            ops.append('cl')
+        elif r < 0.94:
+            ops.append('%s,%d,%d' % (rng.choice(['wr', 'sr']), rng.randrange(8), rng.choice([0, 0, 1])))
+        elif r < 0.95:
+            ops.append('sd,%s' % hx(gen_frame(rng, big_ok)))
         else:
             i = anyport()
             k = rng.choice(['pp', 'pp', 'pm', 'ph', 'pk'])
@@ -147,6 +161,61 @@ def gen_history(rng, nops, big_ok=True):
                 ops.append('%s,%d,%d' % (k, i, pick_prio()))
             else:
                 ops.append('%s,%d,%d' % (k, i, rng.choice([0, 1, 1])))
+    return ' '.join(ops)
+
+
+def gen_housekeeping(rng):
+    """The daemon's housekeeping (CleanStaleSourceClients every 10 s) while clients and ports stream
+    (frames every 0.5-2 s, so every streaming source stays inside the 2.5 s liveness window); after the
+    last run another member of the group updates BEFORE the clients' next frames."""
+    ops = []
+    nports = rng.choice([1, 1, 2])
+    nclients = rng.choice([1, 1, 2, 3])
+    port_ids = rng.sample(range(8), nports)
+    client_ids = rng.sample(range(8), nclients)
+    out_ids = rng.sample(range(8), rng.choice([1, 2]))
+    sink_ids = rng.sample(range(8), rng.choice([0, 1, 2]))
+    setup = [('ai', i) for i in port_ids] + [('ao', i) for i in out_ids] + [('ak', i) for i in sink_ids]
+    rng.shuffle(setup)
+    ops += ['%s,%d' % s for s in setup]
+    ops.append('mode,%d' % rng.choice([0, 0, 0, 1]))
+    if rng.random() < 0.3:
+        ops.append('wr,%d,0' % out_ids[0])
+    cprio = {c: rng.choice([100, 100, 100, 101, 200, 99]) for c in client_ids}
+    # a client may go silent for some periods (then eviction is legitimate)
+    silent_from = {c: (rng.choice([1, 2, 3]) if rng.random() < 0.25 else 99) for c in client_ids}
+    now = rng.randrange(1, 10 ** 7)
+    frame = {}
+    for period in range(rng.choice([2, 2, 3, 4])):
+        end = now + 10 * 10 ** 6
+        while True:
+            now += rng.choice([500000, 1000000, 1500000, 2000000, 2400000])
+            if now >= end:
+                break
+            for c in client_ids:
+                if period < silent_from[c] and rng.random() < 0.9:
+                    frame[c] = gen_frame(rng, False) or [1]
+                    ops.append('cd,%d,%s,%d,%d,%d' % (c, hx(frame[c]), cprio[c], now, now))
+            for i in port_ids:
+                if rng.random() < 0.5:
+                    ops.append('pd,%d,%s,%d,%d' % (i, hx(gen_frame(rng, False) or [2]), now, now))
+        now = end
+        # every streaming source sends once more right before the run (stays live across it)
+        for c in client_ids:
+            if period < silent_from[c]:
+                ops.append('cd,%d,%s,%d,%d,%d' % (c, hx(gen_frame(rng, False) or [3]), cprio[c], now, now))
+        ops.append('cl')
+    # another member updates first, then the clients again
+    now += rng.choice([1, 1000, 500000, 2499999, 2500000])
+    for i in port_ids:
+        ops.append('pd,%d,%s,%d,%d' % (i, hx(gen_frame(rng, False) or [4]), now, now))
+    for c in client_ids:
+        if rng.random() < 0.5:
+            ops.append('cc,%d,%d' % (c, now))
+        else:
+            ops.append('cd,%d,%s,%d,%d,%d' % (c, hx(gen_frame(rng, False) or [5]), cprio[c], now, now))
+    if rng.random() < 0.3:
+        ops += ['cl', 'cl', 'pc,%d,%d' % (port_ids[0], now)]
     return ' '.join(ops)
 
 
@@ -159,6 +228,8 @@ def gen_cases(rng, tier):
     # dense small-state histories: 2-3 sources, one priority, times around the boundary
     for k in range(n // 4):
         yield gen_history(rng, rng.choice([8, 12, 20]), big_ok=False)
+    for k in range(n // 8):
+        yield gen_housekeeping(rng)
 
 
 def nontrivial(payload, md):
@@ -168,7 +239,8 @@ def nontrivial(payload, md):
 
 
 RULE = ('random histories (1-40 ops after a random patching prologue) over <=4 input ports, <=3 source clients, '
-        '<=3 output ports, <=3 sink clients, both merge modes with switches mid-history; priorities from '
+        '<=3 output ports, <=3 sink clients (each with a scripted WriteDMX/SendDMX return value), SetDMX, both merge modes with switches mid-history; '
+        'housekeeping histories (CleanStaleSourceClients every 10 s, 2-4 runs, clients streaming every 0.5-2.4 s or going silent, another group member updating right after a run); priorities from '
         '{0,1,99,100,101,199,200}+palette (+201/255 rarely), clock steps {0,1,2499999,2500000,2500001,...} '
         'including steps aimed at ts+2.5s-1/+0/+1 of an existing source, stamps equal/older/newer than the clock '
         'and unset, frame lengths {0,1..5,..,511,512,513}; class = set of merge outcomes reached '
@@ -179,7 +251,7 @@ ASSUMPTIONS = ['operator new does not fail',
                'sink and source clients are ordered by object address; the harness allocates clients in one '
                'block so that address order is id order']
 TRUSTED = ['modelled rather than verified: Universe.cpp MergeAll/HTPMergeSources/UpdateDependants/PortDataChanged/'
-           'SourceClientDataChanged/SetMergeMode/Add*/Remove*, DmxSource IsSet/IsActive, BasicInputPort::DmxChanged/'
+           'SourceClientDataChanged/CleanStaleSourceClients/SetDMX/SetMergeMode/Add*/Remove*, DmxSource IsSet/IsActive, BasicInputPort::DmxChanged/'
            'SetPriority, Client::DMXReceived/SourceData',
            'DmxBuffer through its value semantics only (Set caps at 512 slots, HTPMerge = slot-wise max, longer tail '
            'kept); the copy-on-write implementation is the subject of C02',
@@ -194,9 +266,10 @@ LEVEL_TEXT = ('Coq theorems, for every world (not only reachable ones), every up
               'other calls leave the frame alone; reachable worlds keep containers duplicate-free, frames <= 512 slots and (given supplied priorities <= 200) handed-out priorities <= 200. '
               'The model is tied to the C++ by a differential correspondence check after every operation '
               '(ASan/UBSan build of the /repo working tree) and the constants 2.5 s/0/100/200/512 are regenerated from the headers. '
+              'Housekeeping (CleanStaleSourceClients) and SetDMX are modelled: a client whose data arrived stays a candidate source across one housekeeping run (c01_housekeeping); '
+              'dependants\' WriteDMX/SendDMX return values are scripted in the cases and proved irrelevant. '
               'Not covered: m_active_priority is rewritten by merges that report no change (observed, compared as an '
-              'internal key, stated in c01_merge, not part of the property clauses); Universe::SetDMX, '
-              'CleanStaleSourceClients and RDM are not modelled.')
+              'internal key, stated in c01_merge, not part of the property clauses); RDM is not modelled.')
 LEVEL_NOTE = ('Trusted: Coq 8.16.1 kernel (vm_compute only in Examples), extraction (ExtrOcamlBasic), OCaml/C++ glue, '
               'generator coverage of the correspondence; model = code is validated by differential testing, not proved. '
               'DmxBuffer enters through its value semantics (C02), TimeStamp arithmetic as exact microsecond arithmetic; '
